@@ -32,7 +32,7 @@ KNOWN_KEYS = {
     # (transport, declaration, failure) -> the precise key of a defect of the pinned tree
     ("http", "absent", "oversize-processed"): "http-chunked-body-bypasses-limit",
     ("fasthttp", "absent", "oversize-processed"): "fasthttp-chunked-body-bypasses-limit",
-    ("udp", "smaller", "oversize-processed"): "udp-limit-on-declared-length",
+    ("udp", "smaller", "oversize-processed"): "udp-limit-on-declared-length",   # repaired in /repo by 5ee4f50
 }
 
 
@@ -49,8 +49,13 @@ def strip_conv(x):
 
 
 def classify_site(s):
-    """-> (letter | None, reason).  B bytes in hand, D declared length field, C ContentLength."""
+    """-> (letter | None, reason).  B bytes in hand, D declared length field, C ContentLength,
+    = the udp handler's  length != n-8  arm (declared must equal received)."""
     lhs, rhs, op = strip_conv(s["lhs"]), strip_conv(s["rhs"]), s["op"]
+    if {lhs, rhs} == {"length", "n-8"}:
+        if op == "!=" and s["before_dispatch"]:
+            return "=", ""
+        return None, "datagram consistency test is not  length != n-8  ahead of the dispatch"
     if "MaxRequestLength" in rhs and "MaxRequestLength" not in lhs:
         x = lhs
     elif "MaxRequestLength" in lhs and "MaxRequestLength" not in rhs:
@@ -94,6 +99,11 @@ def read_sites(ctx):
     for k, owners in SITE_OWNERS.items():
         if k not in seen_owner:
             unresolved.append({"file": k[0], "func": k[1], "reason": "no comparison with MaxRequestLength found"})
+    # Model/Limit.v has the udp handler drop datagrams whose header disagrees with their size
+    if "=" not in table["udp"]:
+        unresolved.append({"file": "rpc/udp/handler.go", "func": "receive",
+                           "reason": "the arm  case length != n-8  that Model/Limit.v mirrors is missing"})
+    table["udp"] = table["udp"].replace("=", "")
     return table, unresolved, obs[0].get("sites") or []
 
 
@@ -319,7 +329,12 @@ def property_oracle(c, o, decoded):
                           (n, c["decl"], "" if c["decl"] in ("truthful", "split", "absent") else " %d" % c["declared"],
                            limit, io, o.get("io_lens"), fn)))
         elif reply != "too-large":
-            trouble = any(k in (o.get("msg") or "") for k in CONNECTION_TROUBLE) or (c["op"] == "raw" and o.get("eof"))
+            # anything but an answer that was received and decoded to something else: the connection went away
+            msg = (o.get("msg") or "")
+            if c["op"] == "client":
+                trouble = o.get("class") == "error" and "invalid response" not in msg.lower()
+            else:
+                trouble = reply == "nothing"
             if honest:
                 kind = "reject-lost-to-connection-teardown" if (trouble and c["t"] in ("tcp", "unix")) else "no-too-large-error"
                 fails.append((kind, "request body of %d bytes refused (MaxRequestLength=%d) but the caller did not get the "
@@ -390,28 +405,88 @@ def refusal(o, reply):
 
 def reject_race_probe(ctx, table):
     """tcp/unix: the server answers an oversize header and closes while the client is still writing the
-    body.  Whether the caller then gets ErrRequestEntityTooLarge or a connection error is a race in the
-    code under test; a few large calls make it show.  Timing-dependent by nature: observed/not observed
-    is recorded, a non-occurrence proves nothing."""
-    n = 6 if ctx.tier == "quick" else 20
-    cases = []
-    for t in ("unix", "tcp"):
-        for k in range(n):
-            cases.append({"id": 900000 + len(cases), "op": "client", "t": t, "limit": 65536, "decl": "truthful",
-                          "actual": 2 << 20, "declared": 2 << 20, "via": "request"})
-    rc, obs, err = hv.run_harness("c13", cases, timeout=600)
-    lost = [o for o in obs if o.get("class") == "error" and o.get("io", 0) == 0 and not o.get("env")]
-    got = [o for o in obs if o.get("class") == "too-large"]
-    ctx.note("reject_race_probe", {"calls": len(obs), "too_large": len(got), "connection_error_instead": len(lost)})
+    body (the client writes header and body separately, so even a 2-byte body does it).  Whether the caller
+    then gets ErrRequestEntityTooLarge or a connection error is a race in the code under test.  Each call
+    loses it with a probability of roughly one half for large bodies: the probe keeps calling (up to 416 calls,
+    large and small bodies, both transports) until the first loss, so a run without any is practically impossible
+    while the defect is there; and if none occurs nothing is reported."""
+    rounds = []
+    nid = [900000]
+
+    def batch(n, t, limit, size):
+        out = []
+        for _ in range(n):
+            nid[0] += 1
+            out.append({"id": nid[0], "op": "client", "t": t, "limit": limit, "decl": "truthful",
+                        "actual": size, "declared": size, "via": "request"})
+        return out
+
+    # large bodies lose the race about every second time (the write is still going on when the server hangs
+    # up), tiny ones only now and then (header and body are separate writes)
+    plan = [batch(8, "unix", 65536, 2 << 20) + batch(8, "tcp", 65536, 2 << 20),
+            batch(20, "unix", 65536, 4 << 20) + batch(20, "tcp", 65536, 4 << 20),
+            batch(60, "unix", 10, 100) + batch(60, "tcp", 10, 100),
+            batch(20, "unix", 4096, 8 << 20) + batch(20, "tcp", 4096, 8 << 20),
+            batch(100, "unix", 1, 2) + batch(100, "tcp", 1, 2)]
+    calls = got = 0
+    lost, lost_case = [], None
+    for cases in plan:
+        rc, obs, err = hv.run_harness("c13", cases, timeout=900)
+        for o in obs:
+            if o.get("env") or o.get("fatal"):
+                continue
+            calls += 1
+            if o.get("class") == "too-large":
+                got += 1
+            elif o.get("class") == "error" and o.get("io", 0) == 0 and "invalid response" not in (o.get("msg") or "").lower():
+                lost.append(o)
+        if lost:
+            lost_case = next(x for x in cases if x["id"] == lost[0]["id"])
+            break
+    ctx.note("reject_race_probe", {"calls": calls, "too_large": got, "connection_error_instead": len(lost)})
     if lost:
-        c = next(x for x in cases if x["id"] == lost[0]["id"])
+        c = lost_case
         ctx.report("socket-reject-then-close-loses-too-large-error",
-                   "%s: a %d-byte call against MaxRequestLength=65536 is refused, but %d of %d callers got '%s' instead of "
+                   "%s: a %d-byte call against MaxRequestLength=%d is refused, but %d of %d callers got '%s' instead of "
                    "ErrRequestEntityTooLarge: the handler closes the connection right after the error frame while the "
                    "client is still writing the body (timing-dependent)"
-                   % (c["t"], c["actual"], len(lost), len(obs), (lost[0].get("msg") or "")[:80]),
+                   % (c["t"], c["actual"], c["limit"], len(lost), calls, (lost[0].get("msg") or "")[:80]),
                    {"case": c, "observed": lost[0], "failing_input": True, "timing_dependent": True,
-                    "occurrences": len(lost), "calls": len(obs)})
+                    "occurrences": len(lost), "calls": calls})
+
+
+def run_corpus(ctx):
+    """corpus/C13-*.json: cases that failed once (fixed defects); they run first and must pass the oracle"""
+    d = os.path.join(hv.V, "corpus")
+    files = sorted(f for f in os.listdir(d) if f.startswith("C13-") and f.endswith(".json")) if os.path.isdir(d) else []
+    cases = []
+    for k, f in enumerate(files):
+        c = dict(json.load(open(os.path.join(d, f)))["case"])
+        c["id"] = 800000 + k
+        c["_file"] = f
+        cases.append(c)
+    if not cases:
+        return
+    send = [{k: v for k, v in c.items() if k != "_file"} for c in cases]
+    attach_headers(send)
+    rc, obs, err = hv.run_harness("c13", send, timeout=300)
+    byid = {o["id"]: o for o in obs if "id" in o}
+    decoded = decode_replies(send, byid)
+    passed = 0
+    for c, sc in zip(cases, send):
+        o = byid.get(c["id"])
+        if o is None or o.get("env"):
+            ctx.bump("env_inconclusive")
+            continue
+        fails = property_oracle(sc, o, decoded)
+        for kind, text in fails:
+            ctx.report(key_for(sc, kind), "corpus case %s fails again: %s %s" % (c["_file"], sc["t"], text),
+                       {"case": sc, "observed": o, "corpus": c["_file"], "failing_input": True})
+        if not fails:
+            passed += 1
+            ctx.count_case("corpus|" + c["_file"])
+    ctx.note("corpus_cases", len(cases))
+    ctx.note("corpus_passed", passed)
 
 
 def run(ctx):
@@ -431,13 +506,16 @@ def run(ctx):
     table, unresolved, raw_sites = read_sites(ctx)
     both = hv.run_model("c13", ["T"])[0].split(" | ")
     pinned = dict(kv.split("=") for kv in both[0].split(" "))
-    repaired = dict(kv.split("=") for kv in both[1].split(" "))
+    original = dict(kv.split("=") for kv in both[1].split(" "))
     ctx.note("limit_sites", {t: table[t] or "-" for t in TRANSPORTS})
     ctx.note("limit_sites_source", [{k: s[k] for k in ("file", "func", "lhs", "op", "rhs", "before_dispatch")} for s in raw_sites])
     ctx.note("limit_sites_equal_pinned_table", {t: sorted(table[t]) == sorted(pinned[t].replace("-", "")) for t in TRANSPORTS})
-    ctx.note("limit_sites_equal_repaired_table", {t: sorted(table[t]) == sorted(repaired[t].replace("-", "")) for t in TRANSPORTS})
+    ctx.note("limit_sites_equal_original_prefix_table", {t: sorted(table[t]) == sorted(original[t].replace("-", "")) for t in TRANSPORTS})
     if unresolved:
         ctx.note("limit_sites_unresolved", unresolved)
+
+    # ---- corpus first
+    run_corpus(ctx)
 
     # ---- T3
     cases = gen_cases(ctx)
@@ -501,9 +579,9 @@ def run(ctx):
     ctx.note("env_inconclusive", env_lost)
     ctx.note("cases", len(cases))
     ctx.note("covers_by_transport", covered)
-    ctx.note("theorems_in_force", {t: ("C13_never_processed (full)" if covered.get(t) == "1" else
-                                       "C13_never_processed_refuted_* + C13_never_processed_partial (guard)")
-                                   for t in TRANSPORTS})
+    ctx.note("theorems_in_force", {t: ("C13_never_processed_pinned / C13_never_processed (full)" if covered.get(t) == "1" else
+                                       "NONE: the handler's sites do not cover the request body (C13_never_processed_iff_covered says the "
+                                       "property is false of this table)") for t in TRANSPORTS})
     ctx.note("rule", "transports x limits %s x sizes {limit-1, limit, limit+1, 10*limit} x declarations {truthful (real client via "
              "Request and via Invoke, raw peer), split writes, absent (chunked / fragmented, also chunked+Content-Length), smaller, "
              "larger}; non-trivial = the body sent or the length declared exceeds the limit; distinct by "
